@@ -43,7 +43,9 @@ def check(ctx: Ctx) -> None:
         ctx.require(bool(hits), f"no path of Tag.get_html_string covers frame scenario {sc!r}")
         for leaf, toks, free in hits:
             # conditions that have nothing to do with metadata (free atoms) are part of the comparison key
-            fk = tuple(sorted((repr(a[0] if not isinstance(a, tuple) else (a[0],) + tuple(x for x in a[2:] if not isinstance(x, int))), str(v)) for a, v in free))
+            fk = tuple(sorted((repr(a[0] if not isinstance(a, tuple) else (a[0],) + tuple(x for x in a[2:] if not isinstance(x, int))), str(v))
+                              for a, v in free
+                              if not (isinstance(a, tuple) and a[0] in ("count", "first-is-meta", "isinstance", "kind", "kindgroup", "len-cmp", "is"))))
             key = (sc.n_vis, sc.name, sc.add_ws, sc.single_kind, fk)
             groups.setdefault(key, []).append((sc, strip_names(toks), free))
     nf = 0
@@ -58,3 +60,30 @@ def check(ctx: Ctx) -> None:
                       f"metadata children change the element's markup: {fmt(toks)} instead of {fmt(ref)}"
                       + (f" (under extra condition {free[0][0]})" if free else ""))
     ctx.count("frame comparisons", nf)
+
+
+def thorough(ctx: Ctx) -> None:
+    """Composed model: inserting a metadata leaf at any position of any enumerated tree leaves the tokens unchanged."""
+    from ..compose import Composer, enumerate_trees
+    m = model(ctx)
+    comp = Composer(m)
+    n = bad = 0
+    for kind, t in enumerate_trees(2, c06_only=False):
+        if kind != "tag":
+            continue
+        kids = t[3]
+        if any(k == ("L", "META") for k in kids):
+            continue
+        ref = comp.render_tag(t, 1, True, True)
+        for pos in range(len(kids) + 1):
+            for reps in (1, 2):
+                t2 = (t[0], t[1], t[2], kids[:pos] + (("L", "META"),) * reps + kids[pos:])
+                n += 1
+                got = comp.render_tag(t2, 1, True, True)
+                if got != ref:
+                    bad += 1
+                    if bad <= 3:
+                        ctx.fail("C07.compose", TG, f"metadata inserted at position {pos} of {t!r}", f"rendering changes from {ref} to {got}")
+    ctx.count("metadata insertions composed", n)
+    if not bad:
+        ctx.ok("C07.compose", f"{n} metadata insertions leave the composed rendering unchanged")
